@@ -325,7 +325,7 @@ def replay(cex):
         penint = dtwh.conc_tr('series', innername, pen) or 0
         want_int = spec.conc_dtw(D, r, c, w, penint, psi)
         want = dtwh.conc_result('series', innername, want_int)
-        if 'ub_euclidean' in claim:
+        if 'ub_euclidean' in claim and cex.get('routine') != 'ub':
             got = dtw_ndim.ub_euclidean(a1, a2, inner_dist=innername)
             tot = sum(D[min(i, r - 1)][min(i, c - 1)] for i in range(max(r, c)))
             return {'reproduced': not spec.close(got, dtwh.conc_result('series', innername, tot)), 'observed': got}
